@@ -66,16 +66,20 @@ enum { L_START, L_ATOM, L_QEND, L_QTEXT, L_QPAIR, L_QCR, L_QCRLF, L_QDQWS, L_QOT
 /* ---- RFC 6531, default build: the 5321 rules with every non-ASCII character one more atom /
         quoted-text character; a backslash may escape only printable ASCII.  Input: code points.
         RFC6531_FOLLOW_RFC20 (C17): # ^ ` { | } ~ are not atom characters. */
-#ifdef RFC6531_FOLLOW_RFC20
-#define L_IS_RFC20_EXCLUDED(c) ((c)=='#'||(c)=='^'||(c)=='`'||(c)=='{'||(c)=='|'||(c)=='}'||(c)=='~')
-#else
-#define L_IS_RFC20_EXCLUDED(c) 0
-#endif
-#define L6531_IS_ATEXT(c) (((L_IS_ATEXT(c)) && !L_IS_RFC20_EXCLUDED(c)) || (c) > 127)
+#define L_IS_RFC20_CHAR(c) ((c)=='#'||(c)=='^'||(c)=='`'||(c)=='{'||(c)=='|'||(c)=='}'||(c)=='~')
+#define L6531_IS_ATEXT_DEFAULT(c) ((L_IS_ATEXT(c)) || (c) > 127)
+#define L6531_IS_ATEXT_RFC20(c)   (((L_IS_ATEXT(c)) && !L_IS_RFC20_CHAR(c)) || (c) > 127)
 #define L6531_IS_QTEXT(c) (L5321_IS_QTEXT(c) || (c) > 127)
-#define SPEC6531_STEP(g, c) ( \
-  L_IS_UNQ(g) ? L_UNQ(g, c, L6531_IS_ATEXT, L_QTEXT) : \
+#define SPEC6531_STEP_WITH(g, c, ATEXT) ( \
+  L_IS_UNQ(g) ? L_UNQ(g, c, ATEXT, L_QTEXT) : \
   (g)==L_QTEXT ? ((c)=='"' ? L_QEND : (c)=='\\' ? L_QPAIR : L6531_IS_QTEXT(c) ? L_QTEXT : L_DEAD) : \
   (g)==L_QPAIR ? (L_IS_PRINT(c) ? L_QTEXT : L_DEAD) : L_DEAD )
+#define SPEC6531_STEP_DEFAULT(g, c) SPEC6531_STEP_WITH(g, c, L6531_IS_ATEXT_DEFAULT)
+#define SPEC6531_STEP_RFC20(g, c)   SPEC6531_STEP_WITH(g, c, L6531_IS_ATEXT_RFC20)
+#ifdef RFC6531_FOLLOW_RFC20
+#define SPEC6531_STEP(g, c) SPEC6531_STEP_RFC20(g, c)
+#else
+#define SPEC6531_STEP(g, c) SPEC6531_STEP_DEFAULT(g, c)
+#endif
 
 #endif
